@@ -497,6 +497,10 @@ theorem inv_step (sc stt : Bool) (T : Term) (s : St) (g gt : Option Win) (op : O
     have hI2 := inv_getCellSize sc stt T _ g gt hI1 (hp trivial)
     exact { winOk := hr w (Or.inr ⟨p, rfl⟩), gOk := hI2.gOk, cell := hI2.cell, colors := hI2.colors, nv := hI2.nv
             tsc := hI2.tsc, rColors := hI2.rColors, rNv := hI2.rNv, rProbe := hI2.rProbe, ratio := hI2.ratio }
+  | useCell k n =>
+    simp only [step, St.lift, useCell, ghostStep, readWin, effectiveToggle, tscGhostStep, getCellSize_reads,
+      Bool.false_eq_true, if_false, if_true] at hp ⊢
+    exact inv_getCellSize sc stt T s.toCore g gt hI (hp trivial)
   | getCellRatio =>
     simp only [step, St.lift, ghostStep, readWin, effectiveToggle, tscGhostStep, Bool.false_eq_true, if_false] at hp ⊢
     rcases getCellRatio_cases T s.toCore with ⟨h1, h2⟩ | ⟨h1, h2⟩
